@@ -39,6 +39,15 @@ type Run struct {
 	solveSecs float64
 	notes   map[string]bool
 	outside []string
+	unclaimed []Unclaimed
+}
+
+// Unclaimed: obligations generated and attempted on every run but not part of the claim (not robustly dischargeable
+// within the quick timeout); what they state is therefore an assumption of the properties that depend on it.
+type Unclaimed struct {
+	Property   string `json:"property"`
+	Obligation string `json:"obligation"`
+	Reason     string `json:"reason"`
 }
 
 func newRun(e *Engine, prop, tier string, seed int, verif string) *Run {
@@ -293,6 +302,27 @@ func digest(s string) string {
 }
 
 func (r *Run) report(known KnownFile, evOut string, t0 time.Time) int {
+	// obligations that are attempted but not claimed (specs/unclaimed.json): reported, never counted, never alarmed on
+	var unclaimed []map[string]string
+	var claimedObs []*Oblig
+	for _, o := range r.obligs {
+		skip := false
+		for _, u := range r.unclaimed {
+			if u.Property != "*" && u.Property != r.prop {
+				continue
+			}
+			if ok, _ := regexp.MatchString("^(?:"+u.Obligation+")$", o.ID); ok {
+				unclaimed = append(unclaimed, map[string]string{"obligation": o.ID, "verdict_this_run": o.Verdict, "reason": u.Reason})
+				r.notes["attempted, NOT claimed (assumed): "+u.Obligation+" — "+u.Reason] = true
+				skip = true
+				break
+			}
+		}
+		if !skip {
+			claimedObs = append(claimedObs, o)
+		}
+	}
+	r.obligs = claimedObs
 	all := append([]*Oblig{}, r.obligs...)
 	all = append(all, r.synth...)
 	var failed []*Oblig
@@ -407,6 +437,7 @@ func (r *Run) report(known KnownFile, evOut string, t0 time.Time) int {
 			"slowest":                 slowest(all, 5),
 			"samples":                 samples,
 			"known_findings":          knownHits,
+			"attempted_not_claimed":   unclaimed,
 			"violating_obligations":   obligIDs(violations),
 			"outside_reach":           r.outside,
 			"obligations_other_properties_same_functions": r.other,
